@@ -3,7 +3,7 @@ From Coq Require Import String.
 From Coq Require Import List NArith ZArith.
 From TarsV Require Import Base.Hex Idl.Lexer Idl.LexerProofs Idl.Parser Idl.ParserProofs Idl.Corr.
 From TarsV Require Import Idl.Print Idl.Render.
-From TarsV Require Idl.Schema Idl.SchemaProofs Idl.PrintProofs Idl.RenderProofs Idl.AnalyzeProofs Idl.Accepts Codec.GenCodec Codec.Corr.
+From TarsV Require Idl.Schema Idl.SchemaProofs Idl.PrintProofs Idl.RenderProofs Idl.AnalyzeProofs Idl.Accepts Idl.TablesProofs Gen.C16Tables Gen.C16Translated Xlate.GoSem Codec.GenCodec Codec.Corr.
 Import ListNotations.
 Open Scope N_scope.
 
@@ -91,6 +91,51 @@ Theorem C16_accepts_rendered_instance :
   AnalyzeProofs.module_names_ok (module_of (bs "m") Accepts.ex_decls) = true.
 Proof. exact Accepts.accepts_rendered_instance. Qed.
 
+(* ---- the model's lexer tables are the tree's (regenerated on every run: Gen/C16Tables.v from the compiled token and
+   lexer packages, Gen/C16Translated.v from the Go source of the character classes and type predicates) ---- *)
+Theorem C16_keywords_regenerated :
+  map (fun p => (fst p, TablesProofs.tok_code (snd p))) keywords = C16Tables.c16_kw_table.
+Proof. exact TablesProofs.keywords_regenerated. Qed.
+(* one NextToken of the model = one NextToken of the compiled lexer on b, "a"b, "1"b, "0x"b (then a blank), every byte b:
+   first-byte dispatch (blanks, line breaks, punctuation, quote, '#', '/', NUL = end of file), identifier, number and
+   hexadecimal continuation classes *)
+Theorem C16_lexer_probes :
+  map (TablesProofs.probe_model []) TablesProofs.all_bytes = C16Tables.c16_probe_b /\
+  map (TablesProofs.probe_model [97]) TablesProofs.all_bytes = C16Tables.c16_probe_ab /\
+  map (TablesProofs.probe_model [49]) TablesProofs.all_bytes = C16Tables.c16_probe_1b /\
+  map (TablesProofs.probe_model [48; 120]) TablesProofs.all_bytes = C16Tables.c16_probe_0xb.
+Proof.
+  exact (conj TablesProofs.probe_first_byte (conj TablesProofs.probe_ident_continuation
+        (conj TablesProofs.probe_number_continuation TablesProofs.probe_hex_continuation))).
+Qed.
+(* integer literals: the model accepts exactly the range the compiled lexer accepts (64 bits) *)
+Theorem C16_int_literal_range_pos : forall s u, uint_of s = Some u -> (forall c r, s = c :: r -> c <> 45 /\ c <> 43) ->
+  parse_int s = if (Z.of_N u <=? C16Tables.c16_int_lit_max)%Z then Some (Z.of_N u) else None.
+Proof. exact TablesProofs.parse_int_range_pos. Qed.
+Theorem C16_int_literal_range_neg : forall r u, uint_of r = Some u ->
+  parse_int (45 :: r) = if (C16Tables.c16_int_lit_min <=? - Z.of_N u)%Z then Some (- Z.of_N u)%Z else None.
+Proof. exact TablesProofs.parse_int_range_neg. Qed.
+(* the character classes of lexer.go and the type predicates of token.go, translated from their source, are the model's *)
+Theorem C16_char_classes_translated : forall b, (0 <= b < 256)%Z ->
+  C16Translated.tr_c16_isNewLine b = GoSem.Return (is_newline (Z.to_N b)) /\
+  C16Translated.tr_c16_isNumber b = GoSem.Return (is_number (Z.to_N b)) /\
+  C16Translated.tr_c16_isHexNumber b = GoSem.Return (is_hexl (Z.to_N b)) /\
+  C16Translated.tr_c16_isLetter b = GoSem.Return (is_letter (Z.to_N b)).
+Proof.
+  intros b Hb. exact (conj (TablesProofs.tr_isNewLine_equiv b Hb) (conj (TablesProofs.tr_isNumber_equiv b Hb)
+    (conj (TablesProofs.tr_isHexNumber_equiv b Hb) (TablesProofs.tr_isLetter_equiv b Hb)))).
+Qed.
+Theorem C16_type_predicates_translated : forall t, In t TablesProofs.all_toks ->
+  C16Translated.tr_c16_IsType (Z.of_N (TablesProofs.tok_code t)) = GoSem.Return (is_type_tok t) /\
+  C16Translated.tr_c16_IsNumberType (Z.of_N (TablesProofs.tok_code t)) = GoSem.Return (match t with TTy b => num_bty b | _ => false end).
+Proof. intros t H. exact (conj (TablesProofs.tr_IsType_equiv t H) (TablesProofs.tr_IsNumberType_equiv t H)). Qed.
+
+Print Assumptions C16_keywords_regenerated.
+Print Assumptions C16_lexer_probes.
+Print Assumptions C16_int_literal_range_pos.
+Print Assumptions C16_int_literal_range_neg.
+Print Assumptions C16_char_classes_translated.
+Print Assumptions C16_type_predicates_translated.
 Print Assumptions C16_lexer_render.
 Print Assumptions C16_accepts_rendered.
 Print Assumptions C16_valid_accepted.
